@@ -206,7 +206,51 @@ func c18Programs() []string {
 		"",
 		"# only a comment",
 		"print \"é漢\" + 1.5\n",
+		"\nprint 1\nprint 1/0\n",
+		"\n\ndef a { x = y }\n",
+		"\r\n# c\nvar x = 1\ndef b { f = x / 0 }\nbind b -> struct\nbind b -> struct\n",
 	}
+}
+
+// c18Pages: the program sits behind a comment sized so that the 4096-byte boundary of the tool's reads falls
+// at every offset of the program in turn; the tool (file argument and standard input) must print what the
+// library's bytes API prints for the same bytes, and exit accordingly.
+func c18Pages(c *core.Ctx, i int64, dir string, prog []byte) {
+	os.MkdirAll(dir, 0o755)
+	file := filepath.Join(dir, fmt.Sprintf("%dpages.bcl", i))
+	defer os.Remove(file)
+	for off := 0; off <= len(prog) && off <= 90; off++ {
+		src := append([]byte("#"+strings.Repeat("x", 4096-off-2)+"\n"), prog...)
+		if err := os.WriteFile(file, src, 0o644); err != nil {
+			c.Inconclusive("cannot write temp file")
+			return
+		}
+		var out, lg bytes.Buffer
+		_, _, err := bcl.Interpret(src, bcl.OptOutput(&out), bcl.OptLogger(&lg))
+		wantExit := 0
+		if err != nil {
+			wantExit = 1
+		}
+		for k, args := range [][]string{{filepath.Base(file)}, {}, {"-"}} {
+			stdin := ""
+			if k > 0 {
+				stdin = file
+			}
+			got := runCLI(dir, stdin, args...)
+			c.Eval(1)
+			if got.timedOut {
+				c.Inconclusive("bcl did not finish within 60 s")
+				return
+			}
+			if got.stdout != out.String() || got.exit != wantExit || (wantExit == 1 && !strings.Contains(got.stderr, lg.String())) {
+				c.Violation("cli-differs-from-library:page-boundary", fmt.Sprintf("bcl %q on a %d-byte file whose read-page boundary falls at offset %d of the program %q: stdout %q exit %d, the library's bytes API gives %q and exit %d (diagnostics %q vs %q)",
+					args, len(src), off, core.Trunc(string(prog), 120), core.Trunc(got.stdout, 200), got.exit, core.Trunc(out.String(), 200), wantExit, core.Trunc(got.stderr, 200), core.Trunc(lg.String(), 200)), nil)
+				return
+			}
+			c.Count("process_runs_with_the_page_boundary_inside_the_program", 1)
+		}
+	}
+	c.Nontrivial(core.Hash("pages", prog))
 }
 
 func c18Case(c *core.Ctx, i int64, r *rand.Rand, dir string, src []byte, kind string) {
@@ -607,6 +651,13 @@ func init() {
 					i++
 				}
 			}
+			for _, p := range []string{"print 0x1F + 0Xa0 - 017 * 1.5e+3\n", "print 1 <= 2 != (3 >= 4) -> 5\n", "var s = \"a\\\"b\\\\\\x41\\u00e9é漢\" print s # c\n", "def b \"n\" { f = 1 } bind b:all -> slice\n", "print 1\r\nprint 2 @\n"} {
+				if c.Mine(i) {
+					c.Begin(i)
+					c18Pages(c, i, dir, []byte(p))
+				}
+				i++
+			}
 			n := int64(c.Pick(600, 12000))
 			for k := int64(0); k < n; k++ {
 				if c.Mine(i) {
@@ -617,6 +668,8 @@ func init() {
 					cfg.CompileErrPct = 10
 					g := lang.NewGen(r, cfg)
 					src := lang.Layout(lang.Flatten(g.Program()), lang.LayoutOpts{StmtNewlines: true}, r).Src
+					// layout in front of the first token (the first byte of a file may be a line end)
+					src = append([]byte([]string{"", "\n", "\n\n", "# c\n", "\r\n", " \t"}[k%6]), src...)
 					if vetMemory(src) {
 						c.Begin(i)
 						c18Case(c, i, r, dir, src, "generated")
